@@ -1,5 +1,5 @@
 CFG = {
-    "lean_targets": ["Norad.Props.C01"],
+    "lean_targets": ["Norad.Props.C01", "Norad.Props.C01Bridge"],
     "audit": "Norad/Audit/C01.lean",
     "rule": ("fonts built through the public API (every int-or-float font-info field and list, unitsPerEm, ~100 other font-info fields from a seed, guidelines with "
              "identifiers and libs, lib with every plist type incl. empty arrays/dicts, blank strings, keys with line breaks, groups, kerning, feature text with CR/LF/CRLF "
@@ -15,8 +15,9 @@ CFG = {
     "trusted_base": COMMON_TRUST + [
         "the plist crate: XML plist writer/reader round trip of values (strings incl. blanks and line breaks, integers, reals, data, dates, nested containers); "
         "Rust's shortest round-trip f64 formatting/parsing (a value written as <real> reads back bit-identically) - both are parameters of the model, exercised on every case by the oracle",
-        "glyph files are opaque tokens in this model (round trip: C02/C12); font-info fields other than the int-or-float numbers, unitsPerEm and guidelines are one opaque token "
-        "(serde field table and validation: C13/C05); store entries are opaque (C16); file-name assignment is observed, not modelled (C06/C07)",
+        "the model is generic over the un-modelled parts (Parts/PartLaws, one named law per hypothesis); Props/C01Bridge.lean discharges the glyph-file law by C02 glif_roundtrip_partial_no_object_libs, "
+        "the rule-bearing font-info fields by C13 entry_points_agree / validate_iff_rules and the container fields of ValidFont by C06 SInv; remaining assumptions: serde of the rule-free font-info fields and of guideline geometry, "
+        "stores carried verbatim (justified by C16 save_writes_verbatim / lazy_get_is_disk_at_first_access, types not bridged); the correspondence runs the token instance",
         "the specification predicate of this property lives in lean/Driver/C01.lean (specFont) and is evaluated on the implementation's loaded font only",
     ],
     "assumptions": [
